@@ -870,3 +870,76 @@ def emit_build_joins(j) -> str:
             f"Definition gen_flatten_acc : bool := {b(j['flatten_acc'])}.\nDefinition gen_flatten_leaf_by_path : bool := {b(j['flatten_leaf_by_path'])}.\n"
             f"Definition gen_assemble_acc : bool := {b(j['assemble_acc'])}.\nDefinition gen_assemble_leaf_by_path : bool := {b(j['assemble_leaf_by_path'])}.\n"
             f"Definition gen_sep : string := {qs(j['sep'])}.\n")
+
+
+# ------------------------------------------------------------------ the basic-index lowering opx.getitem (C08) ---
+_GETITEM_HEAD = """if isinstance(index, _CoreArray):
+    if get_dtype(index) == np.bool_:
+        if get_rank(corearray) < get_rank(index):
+            raise IndexError('Indexing with boolean array cannot happen')
+        return getitem_null(corearray, index)
+    else:
+        return _CoreArray(op.gather(corearray.var, index.var, axis=0))
+elif len(index) == 0:
+    return corearray.copy()
+elif all((isinstance(i, bool) for i in index)):
+    index = typing.cast(tuple[bool, ...], index)
+    return getitem(corearray, _CoreArray(op.const(index) if len(index) > 1 else op.const(index[0])))"""
+_GETITEM_SLICE = """if axis_slices:
+    ndim = get_rank(var)
+    var = op.slice(var, op.const(np.array([x[0] for x in axis_slices], np.int64)), op.const(np.array([x[1] for x in axis_slices], np.int64)), op.const(np.array([x[3] for x in axis_slices], np.int64)), op.const(np.array([x[2] for x in axis_slices], np.int64)))
+    var = unsafe_reshape(var, tuple((None for i in builtins.range(ndim))))"""
+
+
+def getitem_form():
+    """_opset_extensions.getitem, tuple-of-scalars path, as a FORM: what enumerate() runs over when the stepped slices and
+    the integer entries are numbered (the index without None entries, or the raw index), whether the Gathers are applied
+    in reverse order, and what the new-axis positions are counted over.  Everything else must read exactly as the text
+    the model Ndx/GetItem.v ndx_getitem was transcribed from.  Fail-closed."""
+    text, mod = src("ndonnx/_opset_extensions.py")
+    fns = [n for n in mod.body if isinstance(n, ast.FunctionDef) and n.name == "getitem"]
+    if len(fns) != 1:
+        raise Untranslatable("getitem not found")
+    fn = fns[0]
+    if [a.arg for a in fn.args.args] != ["corearray", "index"] or [ast.unparse(d) for d in fn.decorator_list] != ["eager_propagate"]:
+        raise Untranslatable("getitem: signature / decorator")
+    body = [s for s in fn.body if not (isinstance(s, ast.Expr) and isinstance(s.value, ast.Constant))]
+    u = [ast.unparse(s) for s in body]
+    if len(body) != 11:
+        raise Untranslatable(f"getitem: {len(body)} statements (expected 11): " + " | ".join(x[:40] for x in u))
+    if u[0] != _GETITEM_HEAD:
+        raise Untranslatable("getitem: the dispatch on index arrays / the empty index / all-bool indices changed")
+    if u[1] != "index_some = [x for x in index if x is not None]":
+        raise Untranslatable("getitem: index_some: " + u[1])
+
+    def over(stmt_src, prefix, suffix):
+        for base, tag in (("index_some", "OverIndexSome"), ("index", "OverIndex")):
+            if stmt_src == prefix + f"enumerate({base})" + suffix:
+                return tag
+        raise Untranslatable("getitem: " + stmt_src[:120])
+    s_over = over(u[2], "axis_slices = [(x.start, x.stop, x.step, ind) for ind, x in ", " if isinstance(x, slice) and x.step is not None]")
+    if u[3] != "var = corearray.var" or u[4] != _GETITEM_SLICE:
+        raise Untranslatable("getitem: the Slice node (inputs starts, ends, axes, steps) changed")
+    i_over = over(u[5], "axis_indices = [(ind, x) for ind, x in ", " if isinstance(x, int)]")
+    if u[6] == "for axis, axis_index in reversed(axis_indices):\n    var = op.gather(var, op.const(axis_index), axis=axis)":
+        rev = True
+    elif u[6] == "for axis, axis_index in axis_indices:\n    var = op.gather(var, op.const(axis_index), axis=axis)":
+        rev = False
+    else:
+        raise Untranslatable("getitem: the Gather loop changed")
+    if u[7] != "index_filtered = [x for x in index if isinstance(x, (type(None), slice))]":
+        raise Untranslatable("getitem: index_filtered: " + u[7])
+    n_over = {"axis_new_axes = [ind for ind, x in enumerate(index_filtered) if x is None]": True,
+              "axis_new_axes = [ind for ind, x in enumerate(index) if x is None]": False}.get(u[8])
+    if n_over is None:
+        raise Untranslatable("getitem: axis_new_axes: " + u[8])
+    if u[9] != "if len(axis_new_axes) != 0:\n    var = op.unsqueeze(var, axes=op.const(axis_new_axes, dtype=np.int64))" or u[10] != "return _CoreArray(var)":
+        raise Untranslatable("getitem: the Unsqueeze / return changed")
+    return {"slices_over": s_over, "ints_over": i_over, "reversed": rev, "new_over_filtered": n_over}
+
+
+def emit_getitem_form(f) -> str:
+    b = lambda x: "true" if x else "false"
+    return ("From Coq Require Import Bool.\nFrom ND Require Import Ndx.GetItemForm.\n(* GENERATED from ndonnx/_opset_extensions.py getitem *)\n"
+            f"Definition gen_getitem_form : gform := {{| gf_slices_over := {f['slices_over']}; gf_ints_over := {f['ints_over']}; "
+            f"gf_gather_reversed := {b(f['reversed'])}; gf_new_axes_over_filtered := {b(f['new_over_filtered'])} |}}.\n")
